@@ -118,6 +118,10 @@ func (st *c03State) judge(c *fw.Ctx, in []byte, limit, global uint32, entry stri
 			mimetype.SetLimit(limit)
 			m, _ = mimetype.DetectReader(&oddChunks{b: in})
 			hdr = lib.Header(in, limit)
+		} else if entry == "DetectFilePaused" {
+			// a named pipe whose writer delivers the first half, pauses, delivers the rest and closes
+			m, _ = detectPipePaused(in, limit, len(in)/2)
+			hdr = lib.Header(in, limit)
 		} else if entry == "DetectFile" {
 			f := filepath.Join(os.TempDir(), fmt.Sprintf("verif-c03-%d.bin", os.Getpid()))
 			if err := os.WriteFile(f, in, 0o600); err != nil {
@@ -170,7 +174,7 @@ func (st *c03State) judge(c *fw.Ctx, in []byte, limit, global uint32, entry stri
 			bad("trace-order", fmt.Sprintf("detector call #%d consulted %s%s but the first-match depth-first walk expects %s", i, t.Nodes[e.id].MIME, t.Nodes[e.id].Ext, exp))
 			return
 		}
-		if e.n != len(hdr) || e.limit != limit || (len(hdr) > 0 && e.ptr != wantPtr && entry != "DetectReader" && entry != "DetectFile") || ((entry == "DetectReader" || entry == "DetectFile") && e.ptr != st.trace[0].ptr) {
+		if e.n != len(hdr) || e.limit != limit || (len(hdr) > 0 && e.ptr != wantPtr && entry != "DetectReader" && entry != "DetectFile" && entry != "DetectFilePaused") || ((entry == "DetectReader" || entry == "DetectFile" || entry == "DetectFilePaused") && e.ptr != st.trace[0].ptr) {
 			bad("trace-args", fmt.Sprintf("detector %s%s was given (len %d, limit %d, same buffer %v) but the walk examines (len %d, limit %d)", t.Nodes[e.id].MIME, t.Nodes[e.id].Ext, e.n, e.limit, e.ptr == wantPtr, len(hdr), limit))
 			return
 		}
@@ -694,6 +698,10 @@ func c03Run(c *fw.Ctx, b fw.Batch) {
 				entry = "DetectReader" // the reader path: the walk must examine exactly min(len, limit) bytes (whatever limit came before)
 				if r.Intn(3) == 0 {
 					entry = "DetectFile" // and every detector must be told the limit that was set, also for small files
+					if len(x) > 1 && r.Intn(1500) == 0 {
+						entry = "DetectFilePaused" // the same through a named pipe that delivers the file in two pieces
+						c.Count("walks_through_a_paused_named_pipe", 1)
+					}
 				}
 			} else if r.Intn(4) == 0 {
 				entry = "VerifMatch"
